@@ -298,6 +298,45 @@ def run_racing(ctx):
             # windows (after the consistency loop) are reached as often as early ones
             state["skip"] -= 1
             return False
+        nm0 = names.get(id(code))
+        tgt = state.get("target")
+        if tgt is not None:
+            # <= 3.10, targeted mode: exactly one hand-over, at a tape-chosen place of a tape-chosen
+            # pass over the frame (before / inside / after the comprehension that copies the slots)
+            if nm0 == state["passname"] and kind == "resume":
+                state["pass"] = state.get("pass", 0) + 1
+                state["phase"] = 0
+                state["kcount"] = 0
+            elif nm0 == "<listcomp>" and state.get("phase") == 0:
+                state["phase"] = 1
+                state["kcount"] = 0
+            elif nm0 == state["passname"] and state.get("phase") == 1:
+                state["phase"] = 2
+                state["kcount"] = 0
+            else:
+                state["kcount"] = state.get("kcount", 0) + 1
+            if (state.get("pass"), state.get("phase"), state.get("kcount")) != (tgt["pass"], tgt["phase"], tgt["k"]):
+                return False
+            state["target"] = None
+            live = [tg for tg in tgs if not tg.done]
+            if not live:
+                return False
+            tg = live[t.choose(len(live))]
+            for _ in range(tgt["steps"]):
+                if tg.done:
+                    break
+                tg.step()
+                state["progress"] += 1
+                if GUARD is not None and GUARD.log is not None:
+                    GUARD.log.record()
+                if state["snapshots"] is not None and state["rec"] is not None:
+                    state["snapshots"].append(entered_managers(state["rec"]))
+                    if state["rec"].done_frame():
+                        state["snapshots"].append(())
+            events.append((nm0 or "?", kind, tgt["steps"], "targeted", tgt["pass"], tgt["phase"], tgt["k"]))
+            ctx.stat("targeted_handovers")
+            ctx.cover(("race-target", observe.PY, tgt["pass"], tgt["phase"], min(tgt["k"], 3)))
+            return True
         if kind == "resume" and offset <= 6 and names.get(id(code)) == "_parse_exception_table":
             # one call per attempt of the consistency loop (+ one after it)
             state["pet_starts"] = state.get("pet_starts", 0) + 1
@@ -400,6 +439,14 @@ def run_racing(ctx):
                     others.update(id(r.pyframe) for r in o.W.frames)
             state["progress"] = 0
             state["skip"] = t.choose(100) if t.choose(2) else 0
+            state["target"] = None
+            if sys.version_info < (3, 11) and t.choose(2) == 1:
+                state["passname"] = "_inspect_frame" if "_inspect_frame" in names.values() else "inspect_frame"
+                state["target"] = {"pass": 1 + t.weighted([1, 1, 2]), "phase": t.weighted([1, 2, 3]), "k": t.choose(6), "steps": 1 + t.choose(2)}
+                state["pass"] = 0
+                state["phase"] = None
+                state["kcount"] = 0
+                state["skip"] = 0
             if what == 0 or what == 2:
                 # extract(thread) under pre-emption
                 state["snapshots"] = None
